@@ -70,6 +70,28 @@ func methodChanField(u flow.FuncUnit, mode string) (field string, how string) {
 			if x.Op == token.ARROW && mode == "wait" {
 				if f, ok := recvField(info, x.X, recv); ok {
 					field, how = f, "receive"
+				} else if call, ok := ast.Unparen(x.X).(*ast.CallExpr); ok && len(call.Args) == 0 {
+					// <-job.Done(): an accessor of the same receiver whose body is `return job.closed`
+					if sel, ok := ast.Unparen(call.Fun).(*ast.SelectorExpr); ok && identVar(info, sel.X) == recv {
+						if m, ok := info.Uses[sel.Sel].(*types.Func); ok {
+							for _, file := range u.Pkg.Syntax {
+								for _, d := range file.Decls {
+									md, ok := d.(*ast.FuncDecl)
+									if !ok || info.Defs[md.Name] != types.Object(m) || md.Body == nil || len(md.Body.List) != 1 || md.Recv == nil || len(md.Recv.List) != 1 || len(md.Recv.List[0].Names) != 1 {
+										continue
+									}
+									ret, ok := md.Body.List[0].(*ast.ReturnStmt)
+									if !ok || len(ret.Results) != 1 {
+										continue
+									}
+									mrecv, _ := info.Defs[md.Recv.List[0].Names[0]].(*types.Var)
+									if f, ok := recvField(info, ret.Results[0], mrecv); ok {
+										field, how = f, "receive"
+									}
+								}
+							}
+						}
+					}
 				}
 			}
 		}
